@@ -141,7 +141,37 @@ static void crl_build(void)
     }
 }
 
-typedef struct { int m, nload; int load[3]; } crl_case_t;       /* load[i] = level * CV_N + variant */
+typedef struct { int m, nload; int load[3]; int nh; int h[2]; } crl_case_t;       /* load[i] = level * CV_N + variant; h[] = validations run before the judged one */
+
+/* validations a peer can provoke between the application's CRL loads and the judged validation: the CRL store is global
+ * mutable state (authenticated flags, cached verdicts), so the verdict must not depend on what was validated before */
+enum { HV_SAME = 0, HV_PLUS_R2, HV_LEAF_R2, HV_LEAF_ONLY, HV_WRONGSIG_CA, HV_ANCHOR_R2, HV_N };
+static const char *hv_name[HV_N] = { "same-chain", "chain+same-DN-other-key-root", "leaf+same-DN-other-key-root", "leaf-alone", "chain-with-wrongly-signed-CA", "same-chain-against-anchor-R2" };
+static void crl_history_step(const crl_case_t *c, int h)
+{
+    int chain[5], anch[1], n = 0, l;
+    ms_t ms;
+    anch[0] = u_root[SL_RSA][R_MAIN];
+    chain[n++] = u_leaf[SL_RSA][c->m][K_GOOD];
+    switch (h)
+    {
+    case HV_SAME: case HV_PLUS_R2: case HV_ANCHOR_R2:
+        for (l = c->m; l >= 1; l--) chain[n++] = u_ca[SL_RSA][l][K_GOOD];
+        if (h == HV_PLUS_R2) chain[n++] = u_root[SL_RSA][R_SECOND];
+        if (h == HV_ANCHOR_R2) anch[0] = u_root[SL_RSA][R_SECOND];
+        break;
+    case HV_LEAF_R2:
+        chain[n++] = u_root[SL_RSA][R_SECOND];
+        break;
+    case HV_LEAF_ONLY:
+        break;
+    case HV_WRONGSIG_CA:
+        for (l = c->m; l >= 1; l--) chain[n++] = u_ca[SL_RSA][l][l == c->m ? K_SIG_WRONGKEY : K_GOOD];
+        break;
+    }
+    ms_run(chain, n, anch, 1, &ms);
+    DUMPF("  history: validation of %s => %s (rc %d)\n", hv_name[h], ms.label, ms.rc);
+}
 
 static void crl_mdesc(const crl_case_t *c, char *out, size_t n)
 {
@@ -157,6 +187,11 @@ static void crl_mdesc(const crl_case_t *c, char *out, size_t n)
         size_t l = strlen(out);
         snprintf(out + l, n - l, "-");
     }
+    for (i = 0; i < c->nh; i++)
+    {
+        size_t l = strlen(out);
+        snprintf(out + l, n - l, "%s%d", i ? "." : ";h=", c->h[i]);
+    }
 }
 static void crl_desc(const crl_case_t *c, char *out, size_t n)
 {
@@ -171,7 +206,14 @@ static void crl_desc(const crl_case_t *c, char *out, size_t n)
         snprintf(out + l, n - l, " %s-by-L%d", cv_name[c->load[i] % CV_N], c->load[i] / CV_N);
     }
     l = strlen(out);
-    snprintf(out + l, n - l, "%s)", c->nload ? "" : " none");
+    snprintf(out + l, n - l, "%s", c->nload ? "" : " none");
+    for (i = 0; i < c->nh; i++)
+    {
+        l = strlen(out);
+        snprintf(out + l, n - l, "%s %s", i ? "," : "; validated before:", hv_name[c->h[i]]);
+    }
+    l = strlen(out);
+    snprintf(out + l, n - l, ")");
 }
 static int crl_parse_desc(const char *d, crl_case_t *c)
 {
@@ -192,6 +234,22 @@ static int crl_parse_desc(const char *d, crl_case_t *c)
         c->load[c->nload++] = v;
         while (*p >= '0' && *p <= '9') p++;
         if (*p == '.') p++;
+    }
+    p = strstr(d, ";h=");
+    if (p)
+    {
+        p += 3;
+        while (*p >= '0' && *p <= '9' && c->nh < 2)
+        {
+            int v = atoi(p);
+            if (v < 0 || v >= HV_N)
+            {
+                return -1;
+            }
+            c->h[c->nh++] = v;
+            while (*p >= '0' && *p <= '9') p++;
+            if (*p == '.') p++;
+        }
     }
     return 0;
 }
@@ -261,12 +319,16 @@ static void crl_run_case(const crl_case_t *c, mx_result_t *r)
         if (yes && !no && !dc) revoked++;
         else if (dc || (yes && no)) unknown++;
     }
+    for (i = 0; i < c->nh; i++)
+    {
+        crl_history_step(c, c->h[i]);
+    }
     ms_run(chain, n, anch, 1, &ms);
     ref_lax(chain, n, anch, 1, &lax);
     psCRL_DeleteAll();
     r->nontrivial = 1;
-    r->transitions = (uint32_t) (n + c->nload);
-    snprintf(r->outcome, sizeof(r->outcome), "crl|ms=%s|ref=%s", ms.label, revoked ? "revoked" : unknown ? "dont-care" : "not-revoked");
+    r->transitions = (uint32_t) (n + c->nload + c->nh);
+    snprintf(r->outcome, sizeof(r->outcome), "crl|ms=%s|ref=%s|h%d", ms.label, revoked ? "revoked" : unknown ? "dont-care" : "not-revoked", c->nh);
     r->trace_hash = fnv1a(r->outcome, strlen(r->outcome), FNV0);
     DUMPF("  reference: %d chain certificate(s) definitely revoked, %d undetermined (stale/unauthenticated/conflicting CRLs)\n", revoked, unknown);
     if (!lax.ok)
@@ -278,13 +340,13 @@ static void crl_run_case(const crl_case_t *c, mx_result_t *r)
     else if (revoked && ms.accept)
     {
         r->violation = 1;
-        snprintf(r->key, sizeof(r->key), "soundness|revoked-by-authenticated-crl");
-        snprintf(r->what, sizeof(r->what), "validation succeeds although a chain certificate is listed in an authenticated, current CRL loaded by the application");
+        snprintf(r->key, sizeof(r->key), c->nh ? "soundness|revoked-by-authenticated-crl|after-other-validations" : "soundness|revoked-by-authenticated-crl");
+        snprintf(r->what, sizeof(r->what), "validation succeeds although a chain certificate is listed in an authenticated, current CRL loaded by the application%s", c->nh ? " (after other validations ran against the same CRL store)" : "");
     }
     else if (!revoked && !unknown && !ms.accept)
     {
         r->violation = 1;
-        snprintf(r->key, sizeof(r->key), "completeness|crl|%s", ms.label);
+        snprintf(r->key, sizeof(r->key), c->nh ? "completeness|crl|%s|after-other-validations" : "completeness|crl|%s", ms.label);
         snprintf(r->what, sizeof(r->what), "good chain rejected (rc %d, %s) although no authenticated CRL lists any of its certificates", ms.rc, ms.label);
     }
 }
@@ -318,7 +380,27 @@ static void crl_gen(int thorough_tier)
                         cap = cap ? cap * 2 : 1024;
                         crl_cases = realloc(crl_cases, (size_t) cap * sizeof(crl_case_t));
                     }
-                    crl_cases[ncrl++] = cc;
+                    {
+                        int h1, h2;
+                        for (h1 = -1; h1 < HV_N; h1++)
+                        {
+                            for (h2 = -1; h2 < HV_N; h2++)
+                            {
+                                if (h1 < 0 && h2 >= 0) continue;
+                                if (h2 >= 0 && !thorough_tier) continue;
+                                if (h1 >= 0 && cc.nload == 0) continue;          /* no CRL state to disturb */
+                                cc.nh = 0;
+                                if (h1 >= 0) cc.h[cc.nh++] = h1;
+                                if (h2 >= 0) cc.h[cc.nh++] = h2;
+                                if (ncrl >= cap)
+                                {
+                                    cap = cap ? cap * 2 : 1024;
+                                    crl_cases = realloc(crl_cases, (size_t) cap * sizeof(crl_case_t));
+                                }
+                                crl_cases[ncrl++] = cc;
+                            }
+                        }
+                    }
                 }
             }
         }
